@@ -542,14 +542,31 @@ def call_lua_sandbox(
                 )
                 return ""
             name_or_table: Union[str, "_LuaTable", dict] = args[0]
-            new_args: Union[dict, list]
+            new_args: list[str]
+
+            def table_args(table: Union["_LuaTable", dict]) -> list[str]:
+                # As in Scribunto: the values of the keys 1..n, in numeric
+                # order, are the unnamed arguments; any other key gives
+                # the argument "key=value" (as in expandTemplate() below)
+                items = dict(table.items())
+                ret = []
+                num = 1
+                while num in items:
+                    ret.append(str(items.pop(num)))
+                    num += 1
+                for k, v in sorted(items.items(), key=lambda x: str(x[0])):
+                    ret.append("{}={}".format(k, v))
+                return ret
+
             if not isinstance(name_or_table, str):
                 # name is _LuaTable
                 new_args1: Union["_LuaTable", dict, str] = name_or_table["args"]
-                if isinstance(new_args1, str):
-                    new_args = {1: new_args1}
+                if new_args1 is None:
+                    new_args = []
+                elif isinstance(new_args1, (int, float, str)):
+                    new_args = [str(new_args1)]
                 else:
-                    new_args = dict(new_args1)
+                    new_args = table_args(new_args1)
                 name = str(name_or_table["name"]) or ""
             else:
                 new_args = []
@@ -558,10 +575,7 @@ def call_lua_sandbox(
                     if isinstance(arg, (int, float, str)):
                         new_args.append(str(arg))
                     elif isinstance(arg, dict) or lua_type(arg) == "table":
-                        for k, v in sorted(
-                            arg.items(), key=lambda x: str(x[0])
-                        ):
-                            new_args.append(str(v))
+                        new_args.extend(table_args(arg))
             name = ctx._canonicalize_parserfn_name(name)
             if name not in PARSER_FUNCTIONS:
                 ctx.debug(
